@@ -27,7 +27,7 @@ for c in $CHECKS; do
   ran="$ran $c"
   if [ $rc -eq 1 ] && echo "$out" | grep -q "^VIOLATION property=$c"; then caught="$caught $c"; fi
   if [ $rc -eq 2 ]; then caught="$caught $c(machinery-exit)"; fi
-  echo "$out" | grep -E "^VIOLATION|why|^C[0-9]+ |machinery" | head -4 | cut -c1-400 | sed "s/^/    [$ID/$c rc=$rc] /"
+  echo "$out" | grep -E "^VIOLATION|why|^C[0-9]+ |machinery|panicked" | head -6 | cut -c1-400 | sed "s|^|    [$ID $c rc=$rc] |"
 done
 git -C /repo worktree remove --force "$S/repo"
 if [ -n "$caught" ]; then echo "RESULT $ID: CAUGHT by$caught (ran:$ran)"; else echo "RESULT $ID: MISSED (ran:$ran)"; fi
